@@ -56,4 +56,58 @@ def updateCommand (w : L1.World) (post : Str → Option L1.FileMeta) (top path :
     | .ok s1 =>
       if doSave then U.saveAll w post (applyTimestamp s1 setTs) so else .ok (applyTimestamp s1 setTs, [])
 
+-- how the command-line tool ends (gemato/cli.py:602-634 `main`) --------------------------------------
+
+/-- the ways `gemato.cli.main` can end -/
+inductive Exit
+  /-- `main` returns an exit status -/
+  | status (n : Nat)
+  /-- an `OSError` of the object that cannot be accessed propagates -/
+  | oserror (e : L1.Errno)
+  /-- any other exception propagates as a traceback: the internal error C18 excludes -/
+  | traceback (k : IntKind)
+  /-- outside what the model covers -/
+  | abstain
+deriving DecidableEq, Repr
+
+/-- the error values that are instances of `GematoException` (gemato/exceptions.py) -/
+def isGemato : L1.Err → Bool
+  | .mismatch _ | .incompatible | .crossDevice _ | .symlinkLoop _ | .invalidPath _ | .syntax | .unsigned
+  | .unsupportedHash | .signing => true
+  | _ => false
+
+/-- `try: return vals.cmd() … except GematoException as e: logging.error(e); return 1` -/
+def mainExit {α : Type} (r : Except L1.Err α) (ok : α → Nat) : Exit :=
+  match r with
+  | .ok a => .status (ok a)
+  | .error e =>
+    if isGemato e then .status 1
+    else match e with
+      | .os x => .oserror x
+      | .internal k => .traceback k
+      | _ => .abstain
+
+/-- `verify_failure`: the keep-going handler logs the mismatch and returns False -/
+def keepGoingHandler : L1.Handler := .policy fun _ => false
+
+/-- `VerifyCommand.__call__` for one path, after top-level discovery returned `top`:
+    open the loader, `assert_directory_verifies(relpath, **kwargs)` -/
+def verifyCommand (w : L1.World) (top path : Str) (keepGoing xdev : Bool) : Except L1.Err Bool :=
+  match L1.openLoader w top xdev with
+  | .error e => .error e
+  | .ok l =>
+    match l.assertDirectoryVerifies w path (if keepGoing then keepGoingHandler else .raise) none with
+    | .error e => .error e
+    | .ok (_, r) => .ok r.ret
+
+/-- `gemato verify [-k] [-x] <path>` -/
+def verifyMain (w : L1.World) (top path : Str) (keepGoing xdev : Bool) : Exit :=
+  mainExit (verifyCommand w top path keepGoing xdev) fun b => if b then 0 else 1
+
+/-- `gemato update` / `gemato create` for one path (both return 0 when nothing raised) -/
+def updateMain (w : L1.World) (post : Str → Option L1.FileMeta) (top path : Str) (create : Bool)
+    (prof : Prof.Profile) (xdev : Bool) (o : U.Opts) (setTs : Option (Ts × Bool)) (so : U.SaveOpts)
+    (sign : SignCfg := {}) : Exit :=
+  mainExit (updateCommand w post top path create prof xdev o setTs so true sign) fun _ => 0
+
 end Gemato.Cli
